@@ -293,11 +293,12 @@ func (g *gate) Read(p []byte) (int, error) {
 				}
 				go func() {
 					defer close(done)
-					deadline := time.Now().Add(3 * time.Second)
+					deadline := time.Now().Add(10 * time.Second)
 					for time.Now().Before(deadline) {
 						time.Sleep(10 * time.Millisecond)
-						// (a burst is coalesced into one to three redisplays: wait until none is in progress)
-						if sh, atShow, quiet := g.w.showsAndQuiet(); sh > mark && atShow && quiet > 120*time.Millisecond {
+						// (a burst is coalesced into one to three redisplays: wait until none is in progress; on a loaded
+						// machine a redisplay can pause for a while between two writes)
+						if sh, atShow, quiet := g.w.showsAndQuiet(); sh > mark && atShow && quiet > 400*time.Millisecond {
 							return
 						}
 					}
@@ -322,8 +323,11 @@ func (g *gate) Read(p []byte) (int, error) {
 			g.pending = nil
 			g.w.gateReading.Store(false)
 		case b := <-g.w.toGate:
-			g.w.gateReading.Store(false)
-			return copy(p, b), nil // a cursor report for the application goroutine's query
+			// a cursor report for the application goroutine's query. The flag stays up until the event is over:
+			// the library reads again at once, and a second query of the same redisplay made in between must
+			// also be answered through this reader (under load the gap was long enough for the emulator to
+			// answer on the pty, where nobody reads: a hang that was the harness's)
+			return copy(p, b), nil
 		}
 	}
 	g.nwait++
